@@ -20,9 +20,9 @@ import (
 // reviewed top-level sites where the split status is deliberately passed on as the final error.
 
 var c11UndefinedOnly = ExcTable{
-	"resolver.(resolverQuery).esmPackageImportsResolve #1":  "top level of PACKAGE_IMPORTS_RESOLVE: anything but null/undefined is returned as is; NoConditionsMatch is returned as the final error (Node throws 'not defined' here too), it only selects a friendlier message",
-	"resolver.(resolverQuery).esmPackageExportsResolve #1":  "top level of PACKAGE_EXPORTS_RESOLVE (main export): NoConditionsMatch is returned as the final error (Node throws 'not exported' here too), it only selects a friendlier message",
-	"resolver.(resolverQuery).esmPackageExportsResolve #2":  "top level of PACKAGE_EXPORTS_RESOLVE (subpath): as above",
+	"resolver.(resolverQuery).esmPackageImportsResolve #1": "top level of PACKAGE_IMPORTS_RESOLVE: anything but null/undefined is returned as is; NoConditionsMatch is returned as the final error (Node throws 'not defined' here too), it only selects a friendlier message",
+	"resolver.(resolverQuery).esmPackageExportsResolve #1": "top level of PACKAGE_EXPORTS_RESOLVE (main export): NoConditionsMatch is returned as the final error (Node throws 'not exported' here too), it only selects a friendlier message",
+	"resolver.(resolverQuery).esmPackageExportsResolve #2": "top level of PACKAGE_EXPORTS_RESOLVE (subpath): as above",
 }
 
 func c11UndefinedClass(p *Prog) *RuleResult {
